@@ -63,6 +63,7 @@ let parse_head toks =
 
 (* deterministic behaviours, mirrored from vharness.hpp *)
 let throw_pred r b e = ((r * 5 + b * 7 + e * 3) mod 5) = 0
+let veto_pred r b e = ((r * 7 + b * 3 + e * 5) mod 4) <> 0
 let ipred b e = ((b * 3 + e * 5) mod 3) <> 0
 let ithrow b e = ((b + e) mod 4) = 3
 
@@ -169,12 +170,15 @@ let () =
          | None -> ()
          | Some root ->
            let throwing = (act = "5") in
+           let vetoing = (act = "v") in
            let tagged r = act = "t" && Hashtbl.mem thrs (gid, int_of_nat r) in
            let c = { ceol = EolLfCrlf;
-                     acts = (fun _ r -> if (throwing && (let i = int_of_nat r in i < n && garr.(i).nenabled)) || tagged r then AKApply false else AKNone);
+                     acts = (fun _ r -> if vetoing && (let i = int_of_nat r in i < n && garr.(i).nenabled) then AKApply true
+                                        else if (throwing && (let i = int_of_nat r in i < n && garr.(i).nenabled)) || tagged r then AKApply false else AKNone);
                      abeh = (fun _ r b e ->
                          if tagged r then AThrow N0 else
                          let r = int_of_nat r and (bb, _, _) = ipos b and (eb, _, _) = ipos e in
+                         if vetoing then ARet (veto_pred r bb eb) else
                          if throwing && throw_pred r bb eb then AThrow N0 else ARet true);
                      ibeh = (fun a b e ->
                          let (bb, _, _) = ipos b and (eb, _, _) = ipos e in
@@ -186,7 +190,7 @@ let () =
                          | _ -> ARet true);
                      has_unwind = (fun _ -> true);
                      raise_on_failure = (fun _ r -> act = "mi" && Hashtbl.mem rofs (gid, int_of_nat r)) } in
-           let d = { dA = true; dM = false (* parse() default: rewind_mode::optional *); dAct = nat_of_int (if throwing then 5 else 0); dCtl = O; dDepth = O } in
+           let d = { dA = true; dM = false (* parse() default: rewind_mode::optional *); dAct = nat_of_int (if throwing then 5 else if vetoing then 3 else 0); dCtl = O; dDepth = O } in
            let s = unhex inp in
            let bytes = List.init (String.length s) (fun i -> n_of_int (Char.code s.[i])) in
            let sel_f = sel_of gid sel in
